@@ -385,8 +385,9 @@ def headerText (f : Fields) (length : Int) : Out Bytes := do
     bs "VERSION     " ++ f.version ++ [10] ++
     dblinkText f.dblink true ++
     bs "KEYWORDS    " ++ addPrefix indent (wrapSpace (joinWith (bs "; ") f.keywords ++ [46])) ++ [10] ++
-    bs "SOURCE      " ++ addPrefix indent (wrapSpace f.species) ++ [10] ++
-    bs "  ORGANISM  " ++ addPrefix indent (wrapSpace f.organism) ++ [10] ++
+    -- 3d74d27 / 69bb3bf: SOURCE and ORGANISM are written as they are (no `wrap.Space`)
+    bs "SOURCE      " ++ addPrefix indent f.species ++ [10] ++
+    bs "  ORGANISM  " ++ addPrefix indent f.organism ++ [10] ++
     indent ++ addPrefix indent (wrapSpace (joinWith (bs "; ") f.taxon ++ [46])) ++ [10] ++
     refs ++
     (f.comments.flatMap fun c => bs "COMMENT     " ++ addPrefix indent c ++ [10]) ++
